@@ -208,7 +208,13 @@ def const_type_expr(vx):
     raise SpecError("unsupported const valexpr: %s" % vx)
 
 
-def gen_handler(d):
+# Interfaces whose name starts with `k` give their last handlers the names of the provided methods of the
+# StandardCommands / ErrorCommands traits (legal: inherent methods of the user's type), so that generated code
+# which reaches the built-in handlers by plain method syntax would be caught.
+CLASH_NAMES = ["system_version", "system_error_next", "system_error_count"]
+
+
+def gen_handler(d, fname=None):
     args = d["args"]
     beh = d["beh"]
     params = "".join(", a%d: %s" % (i, arg_rust_type(t)) for i, t in enumerate(args))
@@ -247,8 +253,8 @@ def gen_handler(d):
     tvals = ", ".join("a%d.tval()" % i for i in range(len(args)))
     out = []
     out.append("        #[scpi(cmd = %s)]" % rust_str(d["cmd"]))
-    out.append("        pub %sfn h%d%s(&mut self%s) -> Result<%s, microscpi::Error> {"
-               % ("async " if d["is_async"] else "", d["id"], generics, params, rty))
+    out.append("        pub %sfn %s%s(&mut self%s) -> Result<%s, microscpi::Error> {"
+               % ("async " if d["is_async"] else "", fname or ("h%d" % d["id"]), generics, params, rty))
     out.append("            if self.quiet {")
     out.append("                self.ncalls += 1;")
     out.append("            }")
@@ -352,7 +358,8 @@ def gen_iface_plain(i, ty):
             o.append("            self.log.len() + %d" % k)
             o.append("        }")
             o.append("")
-        o.append(gen_handler(d))
+        ck = len(i["decls"]) - 1 - d["id"]
+        o.append(gen_handler(d, CLASH_NAMES[ck] if (name.startswith("k") and 0 <= ck < len(CLASH_NAMES)) else None))
         o.append("")
     if o[-1] == "":
         o.pop()
